@@ -943,8 +943,8 @@ def toLegacyStruct (backRange : Dict → PyR Dict) (d : Dict) : PyR J := do
 
 /-- `yang_to_legacy` with libyang validation left out (the harness only sends validated documents);
     `legacy_to_yang` is still run first, as the code does, so its own errors surface -/
-def yangToLegacyWith (reff : Dict → PyR Dict) (backRange : Dict → PyR Dict) (reprs : List (Nat × String)) (doc : J) :
-    PyR J := do
+def yangToLegacyWith (reff : Dict → PyR Dict) (backRange : Dict → PyR Dict)
+    (reprs : List (Nat × String)) (doc : J) : PyR J := do
   let _ ← legacyToYangWith reff reprs doc
   let j ← convertBack none (emptyToNone doc)
   toLegacyStruct backRange (← asObj j)
